@@ -57,7 +57,8 @@ def run(op, a):
         # about 1 in 100 of the library's signatures); OpenSSL's nonce is random, so re-sign
         short = len(a) > 9 and isinstance(a[9], int) and a[9] >= 100
         for k, ht in zip(signers, hts):
-            h = SignatureHash(inner, tx, idx, ht)
+            # generic signing loops pass the spent amount for every input; the legacy version ignores it
+            h = SignatureHash(inner, tx, idx, ht) if (idx + ht) % 3 else SignatureHash(inner, tx, idx, ht, amount=50000)
             der = k.sign(h)
             if short:
                 for _ in range(300):
